@@ -114,6 +114,8 @@ def conc_legs(workload, tier, sanitizers=False):
         conc(f"conc-{workload}-miri", workload, variant="miri", runs=4 if q else 12, shards=3 if q else 16, timeout=300 if q else 1500,
              miriflags="-Zmiri-preemption-rate=0.05", seed_offset=700),
     ]
+    # debug assertions on: the crate's own consistency debug_assert!s become panics (= C01 violations)
+    out.append(conc(f"conc-{workload}-dbg", workload, variant="dbg", runs=1500 if q else 40_000, shards=4 if q else 8, timeout=600 if q else 3000, seed_offset=600))
     if not q:
         out.append(conc(f"conc-{workload}-miri-p2", workload, variant="miri", runs=8, shards=8, timeout=1500, miriflags="-Zmiri-preemption-rate=0.2", seed_offset=900))
     if sanitizers:
@@ -173,7 +175,7 @@ PLAN = {
     "C05": lambda tier: driver_legs("semaphore", tier) + conc_legs("semaphore", tier),
     "C06": lambda tier: driver_legs("semaphore", tier) + conc_legs("semaphore", tier),
     "C07": lambda tier: driver_legs("semaphore", tier),
-    "C08": lambda tier: driver_legs("mpmc", tier) + san_legs("mpmc-bval", tier, miri_shards=4 if tier == "quick" else 12) + conc_legs("mpmc", tier, sanitizers=True),
+    "C08": lambda tier: driver_legs("mpmc", tier) + san_legs("mpmc-bval", tier, miri_shards=4 if tier == "quick" else 12) + conc_legs("mpmc", tier, sanitizers=True) + conc_legs("handles", tier),
     "C09": lambda tier: driver_legs("mpmc", tier) + conc_legs("mpmc", tier),
     "C10": lambda tier: driver_legs("mpmc", tier) + conc_legs("mpmc", tier),
     "C11": lambda tier: driver_legs("mpmc", tier, 0.6) + driver_legs("oneshot", tier, 0.6) + driver_legs("state", tier, 0.6) + conc_legs("handles", tier),
